@@ -9,6 +9,7 @@
 //!
 //! Exit codes: 0 held, 1 violation (a `VIOLATION property=<id> replay=<path>`
 //! line is printed), 2 harness error.
+mod clockshim;
 mod choices;
 mod common;
 mod des;
@@ -240,6 +241,9 @@ fn run_family(family: &str, ch: &mut Ch, verbose: bool) -> Result<Outcome, Strin
         });
         return Ok(o);
     }
+    // from here to the end of the run, this thread's reads of the OS clocks
+    // are answered with simulated time (see clockshim.rs)
+    let _sim = clockshim::enter();
     match family {
         "blockwise" => Ok(fam_block::run(ch, verbose)),
         "directed" => Ok(fam_directed::run(ch, verbose)),
